@@ -337,6 +337,11 @@ class Sym:
         if o is None:
             return NotImplemented
         a, b = self, o
+        # integer +- integral constant stays an integer
+        if a.kind == "i" and b.kind == "g" and not isinstance(b.g, z3.ExprRef) and b.g == 0 and b.o.denominator == 1:
+            b = Sym("i", g=int(b.o))
+        if b.kind == "i" and a.kind == "g" and not isinstance(a.g, z3.ExprRef) and a.g == 0 and a.o.denominator == 1:
+            a = Sym("i", g=int(a.o))
         if a.kind == "i" and b.kind == "i":
             return Sym("i", g=a.g + b.g)
         if a.kind == "i":
@@ -734,6 +739,8 @@ class Vars:
     def assume(self, cond):
         """precondition of the scenario: constrains the path symbolically; must hold in a concrete replay (else replay is void)"""
         if self.concrete is not None:
+            if isinstance(cond, SymBool):
+                cond = z3.is_true(z3.simplify(cond.t))
             if not bool(cond):
                 raise PathInfeasible()
             return
